@@ -33,17 +33,38 @@ def rand_params(rng, ts=None, n=None):
 
 
 def crc_zero_prefix_tms(rng, want=4):
-    """TM parameters for which the CRC of the primary header plus the fixed part of the secondary header is 0x0000"""
+    """TM parameters for which the running CRC is exactly 0x0000 after the primary header, or after primary + secondary header
+    (time stamp included): a running checksum of zero must not be mistaken for 'not started'."""
     from .c02 import crc16
+    from ..ops_ecss import mk_tm
+    from ..core import MachineryError
     out = []
+
+    def params(apid, seq, dest, stamp, n):
+        return {"ver": 0, "apid": apid, "seq": seq, "service": 17, "subservice": 2, "msgcnt": 5, "dest": dest, "timeref": 0,
+                "stamp": stamp, "data": [rng.randrange(256) for _ in range(n)]}
+    for ts, n in ((0, 0), (7, 2)):
+        done = False
+        for apid in rng.sample(range(2048), 2048):
+            for seq in range(16384):
+                if crc16([0x08 | (apid >> 8), apid & 0xFF, 0xC0 | (seq >> 8), seq & 0xFF, 0, 8 + ts + n]) == 0:
+                    out.append(params(apid, seq, rng.randrange(65536), [rng.randrange(256) for _ in range(ts)], n))
+                    done = True
+                    break
+            if done:
+                break
     for _ in range(want):
         apid, seq, ts, n = rng.randrange(2048), rng.randrange(16384), rng.choice([0, 7]), rng.choice([0, 3])
-        pre = [0x08 | (apid >> 8), apid & 0xFF, 0xC0 | (seq >> 8), seq & 0xFF, 0, 7 + ts + n, 0x20, 17, 2, 0, 5]
+        stamp = [rng.randrange(256) for _ in range(ts)]
+        pre = [0x08 | (apid >> 8), apid & 0xFF, 0xC0 | (seq >> 8), seq & 0xFF, 0, 8 + ts + n, 0x20, 17, 2, 0, 5]
         for dest in range(65536):
-            if crc16(pre + [dest >> 8, dest & 0xFF]) == 0:
-                out.append({"ver": 0, "apid": apid, "seq": seq, "service": 17, "subservice": 2, "msgcnt": 5, "dest": dest, "timeref": 0,
-                            "stamp": [rng.randrange(256) for _ in range(ts)], "data": [rng.randrange(256) for _ in range(n)]})
+            if crc16(pre + [dest >> 8, dest & 0xFF] + stamp) == 0:
+                out.append(params(apid, seq, dest, stamp, n))
                 break
+    for q in out:
+        raw = bytes(mk_tm(q, "tm").pack())
+        if crc16(list(raw[:6])) != 0 and crc16(list(raw[:13 + len(q["stamp"])])) != 0:
+            raise MachineryError(f"crc_zero_prefix_tms: {q} has no zero running checksum after its headers")
     return out
 
 
